@@ -95,8 +95,8 @@ def collectLoop (root : List Slot) (ru : RunUntil) (stop : Stop) (fault : TraceF
     | .drop => (c.fail .unreachable, .returned)
 
 /-- A fuel value that always suffices (theorem `collectLoop_fuel` in Proofs/Termination). -/
-def fuelBound (c : Ctx) (root : List Slot) : Nat :=
-  4 * (c.heap.size + c.gray.length + c.grayAgain.length + root.length) + 16
+def fuelBound (c : Ctx) (_root : List Slot) : Nat :=
+  4 * (c.pre.length + c.rest.length) + 16
 
 /-- `Context::do_collection` (self-driven: debt tests read the model's own metrics). -/
 def doCollection (c : Ctx) (root : List Slot) (ru : RunUntil) (stop : Stop)
